@@ -82,6 +82,7 @@ def lean_ty(t) -> str:
 	if k in ('db', 'obj'): return 'Unit'
 	if k == 'arr': return 'Py.Arr'
 	if k == 'sigs': return 'Py.Sigs'
+	if k == 'carr': return 'Py.CArr'
 	if k == 'nd': return 'Py.ND'
 	if k == 'index': return 'Py.Index'
 	if k == 'dtype': return 'Py.DType'
@@ -107,6 +108,7 @@ def default(t) -> str:
 	if k in ('db', 'obj'): return '()'
 	if k == 'arr': return '(default : Py.Arr)'
 	if k == 'sigs': return '(default : Py.Sigs)'
+	if k == 'carr': return '(default : Py.CArr)'
 	if k == 'nd': return '(default : Py.ND)'
 	if k == 'index': return '(default : Py.Index)'
 	if k == 'dtype': return '(default : Py.DType)'
@@ -248,6 +250,21 @@ FUNCS = [
 	     calls={'get_progress': ('()', ('obj',), [])}, methods={('obj', 'increment'): ('()', ('obj',), [], None)}),
 	dict(name='check_index', file='util/indexing.py', qual='AdvancedIndexingMixin._check_index', module='PyCheckIndex',
 	     env=[], params=[('self_len', INT), ('i', INT)], ret=INT, self_len='self_len'),
+	# --- sigs/base.py (ConcatenatedSignatureArray) and util/indexing.py (the mixin's defaults): index plumbing of the packed collections.
+	#     A packed collection is (values, bounds); methods take them as leading parameters.
+	dict(name='concat_len', file='sigs/base.py', qual='ConcatenatedSignatureArray.__len__', module='PyConcat', env=[], params=[('self_values', LIST(INT)), ('self_bounds', LIST(INT))], ret=INT, self_attrs={'values': ('self_values', LIST(INT)), 'bounds': ('self_bounds', LIST(INT))}, self_len_expr='(((s.self_bounds).length : Int) - 1)', self_exprs={'LEN': '(((s.self_bounds).length : Int) - 1)', 'V': 's.self_values', 'B': 's.self_bounds'}),
+	dict(name='concat_getitem_int', file='sigs/base.py', qual='ConcatenatedSignatureArray._getitem_int', module='PyConcat', env=[],
+	     params=[('self_values', LIST(INT)), ('self_bounds', LIST(INT)), ('i', INT)], ret=LIST(INT), self_attrs={'values': ('self_values', LIST(INT)), 'bounds': ('self_bounds', LIST(INT))}, self_len_expr='(((s.self_bounds).length : Int) - 1)', self_exprs={'LEN': '(((s.self_bounds).length : Int) - 1)', 'V': 's.self_values', 'B': 's.self_bounds'}),
+	dict(name='concat_sizeof', file='sigs/base.py', qual='ConcatenatedSignatureArray.sizeof', module='PyConcat', env=[],
+	     params=[('self_values', LIST(INT)), ('self_bounds', LIST(INT)), ('index', INT)], ret=INT, self_attrs={'values': ('self_values', LIST(INT)), 'bounds': ('self_bounds', LIST(INT))}, self_len_expr='(((s.self_bounds).length : Int) - 1)', self_exprs={'LEN': '(((s.self_bounds).length : Int) - 1)', 'V': 's.self_values', 'B': 's.self_bounds'}, self_calls={'_check_index': ('check_index', ['LEN']), '_getitem_int': ('concat_getitem_int', ['V', 'B']), 'sizeof': ('concat_sizeof', ['V', 'B']), '_getitem_int_array': ('concat_getitem_int_array', ['V', 'B']), 'super._getitem_slice': ('mixin_getitem_slice', ['V', 'B'])}),
+	dict(name='concat_getitem_int_array', file='sigs/base.py', qual='ConcatenatedSignatureArray._getitem_int_array', module='PyConcat', env=[],
+	     params=[('self_values', LIST(INT)), ('self_bounds', LIST(INT)), ('indices', LIST(INT))], ret=('carr',), self_attrs={'values': ('self_values', LIST(INT)), 'bounds': ('self_bounds', LIST(INT))}, self_len_expr='(((s.self_bounds).length : Int) - 1)', self_exprs={'LEN': '(((s.self_bounds).length : Int) - 1)', 'V': 's.self_values', 'B': 's.self_bounds'}, self_calls={'_check_index': ('check_index', ['LEN']), '_getitem_int': ('concat_getitem_int', ['V', 'B']), 'sizeof': ('concat_sizeof', ['V', 'B']), '_getitem_int_array': ('concat_getitem_int_array', ['V', 'B']), 'super._getitem_slice': ('mixin_getitem_slice', ['V', 'B'])}, comp_types={'out': LIST(INT)}),
+	dict(name='mixin_getitem_slice', file='util/indexing.py', qual='AdvancedIndexingMixin._getitem_slice', module='PyConcat', env=[],
+	     params=[('self_values', LIST(INT)), ('self_bounds', LIST(INT)), ('index', TUP(OPT(INT), OPT(INT), OPT(INT)))], ret=('carr',), self_attrs={'values': ('self_values', LIST(INT)), 'bounds': ('self_bounds', LIST(INT))}, self_len_expr='(((s.self_bounds).length : Int) - 1)', self_exprs={'LEN': '(((s.self_bounds).length : Int) - 1)', 'V': 's.self_values', 'B': 's.self_bounds'}, self_calls={'_check_index': ('check_index', ['LEN']), '_getitem_int': ('concat_getitem_int', ['V', 'B']), 'sizeof': ('concat_sizeof', ['V', 'B']), '_getitem_int_array': ('concat_getitem_int_array', ['V', 'B']), 'super._getitem_slice': ('mixin_getitem_slice', ['V', 'B'])}),
+	dict(name='mixin_getitem_bool_array', file='util/indexing.py', qual='AdvancedIndexingMixin._getitem_bool_array', module='PyConcat', env=[],
+	     params=[('self_values', LIST(INT)), ('self_bounds', LIST(INT)), ('index', LIST(BOOL))], ret=('carr',), self_attrs={'values': ('self_values', LIST(INT)), 'bounds': ('self_bounds', LIST(INT))}, self_len_expr='(((s.self_bounds).length : Int) - 1)', self_exprs={'LEN': '(((s.self_bounds).length : Int) - 1)', 'V': 's.self_values', 'B': 's.self_bounds'}, self_calls={'_check_index': ('check_index', ['LEN']), '_getitem_int': ('concat_getitem_int', ['V', 'B']), 'sizeof': ('concat_sizeof', ['V', 'B']), '_getitem_int_array': ('concat_getitem_int_array', ['V', 'B']), 'super._getitem_slice': ('mixin_getitem_slice', ['V', 'B'])}),
+	dict(name='concat_getitem_slice', file='sigs/base.py', qual='ConcatenatedSignatureArray._getitem_slice', module='PyConcat', env=[],
+	     params=[('self_values', LIST(INT)), ('self_bounds', LIST(INT)), ('s_', TUP(OPT(INT), OPT(INT), OPT(INT)))], ret=('carr',), self_attrs={'values': ('self_values', LIST(INT)), 'bounds': ('self_bounds', LIST(INT))}, self_len_expr='(((s.self_bounds).length : Int) - 1)', self_exprs={'LEN': '(((s.self_bounds).length : Int) - 1)', 'V': 's.self_values', 'B': 's.self_bounds'}, self_calls={'_check_index': ('check_index', ['LEN']), '_getitem_int': ('concat_getitem_int', ['V', 'B']), 'sizeof': ('concat_sizeof', ['V', 'B']), '_getitem_int_array': ('concat_getitem_int_array', ['V', 'B']), 'super._getitem_slice': ('mixin_getitem_slice', ['V', 'B'])}),
 ]
 
 EXC = {'ValueError', 'TypeError', 'IndexError', 'KeyError', 'AttributeError', 'AssertionError', 'RuntimeError'}
@@ -583,6 +600,8 @@ class Fn:
 			if ty is None: raise Untranslatable('element type of [None] * n is unknown')
 			x = self.coerce(x, ty[1], 'repeated element')
 			return E(f'(List.replicate ({b.lean}).toNat {x.lean})', ty, x.raises + b.raises)
+		if a.ty == LIST(INT) and b.ty == INT and isinstance(n.op, ast.Sub):     # NumPy: array - scalar
+			return E(f'(({a.lean}).map (fun (x_ : Int) => x_ - {b.lean}))', LIST(INT), a.raises + b.raises)
 		if a.ty == b.ty and a.ty[0] in ('list', 'bytes') and isinstance(n.op, ast.Add):
 			return E(f'({a.lean} ++ {b.lean})', a.ty, a.raises + b.raises)
 		raise Untranslatable(f'operator {type(n.op).__name__} on {a.ty}, {b.ty}')
@@ -755,6 +774,8 @@ class Fn:
 		if isinstance(f, ast.Name):
 			name = f.id
 			if name == 'len' and len(args) == 1:
+				if isinstance(args[0], ast.Name) and args[0].id == 'self' and self.d.get('self_len_expr'):
+					return E(self.d['self_len_expr'], INT)
 				if isinstance(args[0], ast.Name) and args[0].id == 'self' and self.d.get('self_len'):
 					return E(f's.{self.d["self_len"]}', INT)
 				a = self.value(args[0])
@@ -882,6 +903,15 @@ class Fn:
 			a = self.value(args[0])
 			if a.ty != STR: raise Untranslatable('os.path.basename of ' + str(a.ty))
 			return E(f'(GambitV.basename {a.lean})', STR, a.raises)
+		if ast.unparse(f) == 'SignatureArray.from_arrays' and len(args) == 3 and not kw and ast.unparse(args[2]) == 'self.kmerspec':
+			a, b = self.value(args[0]), self.value(args[1])
+			if a.ty != LIST(INT) or b.ty != LIST(INT): raise Untranslatable('SignatureArray.from_arrays argument types')
+			return E(f'({{ values := {a.lean}, bounds := {b.lean} }} : Py.CArr)', ('carr',), a.raises + b.raises)
+		if (ast.unparse(f) == 'SignatureArray.uninitialized' and len(args) == 2 and ast.unparse(args[1]) == 'self.kmerspec'
+				and [f'{k}={ast.unparse(v)}' for k, v in kw.items()] == ['dtype=self.values.dtype']):
+			a = self.value(args[0])
+			if a.ty != LIST(INT): raise Untranslatable('SignatureArray.uninitialized argument types')
+			return E(f'(Py.CArr.uninitialized {a.lean})', ('carr',), a.raises)
 		if isinstance(f, ast.Attribute) and isinstance(f.value, ast.Name) and f.value.id == '_cmetric' and f.attr in ('jaccard', 'jaccarddist') and len(args) == 2 and not kw:
 			# the compiled kernels (tied to the model by Tie.Metric): fused over the three unsigned types, compared as zero-extended values
 			a, b = self.value(args[0]), self.value(args[1])
@@ -895,6 +925,14 @@ class Fn:
 				a = self.value(args[0])
 				if a.ty != STR: raise Untranslatable('os.fspath of ' + str(a.ty))
 				return a
+			if mod == 'np' and m == 'arange' and len(args) == 3 and not kw:
+				a = [self.value(x) for x in args]
+				if any(x.ty != INT for x in a): raise Untranslatable('np.arange of non-ints')
+				return E(f'(GambitV.arange {a[0].lean} {a[1].lean} {a[2].lean})', LIST(INT), guard_all(a))
+			if mod == 'np' and m == 'flatnonzero' and len(args) == 1 and not kw:
+				a = self.value(args[0])
+				if a.ty != LIST(BOOL): raise Untranslatable('np.flatnonzero of ' + str(a.ty))
+				return E(f'((GambitV.flatnonzero {a.lean}).map (fun (j : Nat) => (j : Int)))', LIST(INT), a.raises)
 			if mod == 'np' and m == 'asarray' and len(args) == 1 and not kw:
 				a = self.value(args[0])
 				if a.ty == LIST(INT): return a
@@ -943,6 +981,12 @@ class Fn:
 			o = self.value(f.value.value)
 			if o.ty != ('sigs',): raise Untranslatable(f'.bounds of {o.ty}')
 			return E(f'(Py.Sigs.bounds {o.lean})', LIST(INT), o.raises)
+		if self.self_call(n) is not None:
+			if self.nohoist: raise Untranslatable(f'call of {ast.unparse(f)} in a conditionally evaluated operand')
+			call, ty, raises = self.call_known(n)
+			self.nv += 1
+			self.pre.append((f'v{self.nv}', call, raises))
+			return E(f'v{self.nv}', ty)
 		if isinstance(f, ast.Attribute):
 			o = self.value(f.value, 'AttributeError')
 			m = f.attr
@@ -974,6 +1018,12 @@ class Fn:
 			if o.ty == BYTES and m == 'upper' and not args: return E(f'(GambitV.upper {o.lean})', BYTES, o.raises)
 			if o.ty == BYTES and m == 'lower' and not args: return E(f'(Py.lower {o.lean})', BYTES, o.raises)
 			if o.ty[0] == 'dict' and m == 'keys' and not args: return E(f'(({o.lean}).map (·.1))', LIST(o.ty[1]), o.raises)
+			if o.ty == TUP(OPT(INT), OPT(INT), OPT(INT)) and m == 'indices' and len(args) == 1 and not kw:
+				nn = self.value(args[0])
+				if nn.ty != INT: raise Untranslatable('slice.indices of a non-int')
+				e = E(f'(GambitV.sliceIndices ({nn.lean}).toNat ({o.lean}).1 ({o.lean}).2.1 ({o.lean}).2.2)', TUP(INT, INT, INT),
+				      o.raises + nn.raises + [(f'(({o.lean}).2.2 == some 0)', 'ValueError')])
+				return e
 			if o.ty == ('arr',) and m == 'view' and len(args) == 1 and not kw:
 				a = self.value(args[0])
 				if a.ty != ('dtype',): raise Untranslatable('view() with something other than a dtype')
@@ -1046,9 +1096,19 @@ class Fn:
 			vn = f'w{self.nv}'
 			return (self.guards(raises, ind) + f'{ind}let {vn} ← Py.call {call}\n'
 			        + self.assign(base, E(puts(vn), ('nd',)), ind))
-		if isinstance(v, ast.Call) and isinstance(v.func, ast.Name) and v.func.id in self.known:
+		if self.is_known_call(v):
 			call, ty, raises = self.call_known(v)      # a translated function called for its checks only
 			return self.guards(raises, ind) + f'{ind}let _ ← Py.call {call}\n'
+		if (isinstance(v, ast.Call) and ast.unparse(v.func) == 'np.copyto' and len(v.args) == 2 and [f'{k.arg}={ast.unparse(k.value)}' for k in v.keywords] == ["casting='unsafe'"]
+				and isinstance(v.args[0], ast.Subscript) and isinstance(v.args[0].value, ast.Name) and self.vars.get(v.args[0].value.id) == ('carr',)):
+			# np.copyto(out[i], x, casting='unsafe'): out[i] is a view into out.values
+			name = v.args[0].value.id
+			i = self.value(v.args[0].slice)
+			x = self.value(v.args[1])
+			if i.ty != INT or x.ty != LIST(INT): raise Untranslatable('np.copyto argument types')
+			new = E(f'(Py.CArr.putItem s.{name} {i.lean} {x.lean})', ('carr',),
+			        i.raises + x.raises + [(f'(Py.CArr.putItemBad s.{name} {i.lean} {x.lean})', 'ValueError')])
+			return self.assign(name, new, ind)
 		if isinstance(v, ast.Call) and ast.unparse(v.func) == 'np.fill_diagonal' and len(v.args) == 2 and not v.keywords:
 			o = v.args[0]
 			if not (isinstance(o, ast.Name) and o.id in self.vars and self.vars[o.id] in (('nd',), OPT(('nd',)))) or ast.unparse(v.args[1]) != '0':
@@ -1103,7 +1163,7 @@ class Fn:
 		if len(st.targets) != 1:
 			raise Untranslatable(f'chained assignment at line {st.lineno}')
 		tgt, v = st.targets[0], st.value
-		known_call = isinstance(v, ast.Call) and isinstance(v.func, ast.Name) and v.func.id in self.known
+		known_call = self.is_known_call(v)
 		# a, b = f(...)   for a translated function returning a tuple
 		if isinstance(tgt, ast.Tuple) and known_call and all(isinstance(t, ast.Name) for t in tgt.elts):
 			call, ty, raises = self.call_known(v)
@@ -1116,6 +1176,17 @@ class Fn:
 				e = self.coerce(E(proj, x), self.vars[t.id], f'assignment to {t.id}')
 				self.narrow = {k for k in self.narrow if f"id='{t.id}'" not in k}
 				out += f'{ind}let s : St := {{ s with {t.id} := {e.lean} }}\n'
+			return out
+		if isinstance(tgt, ast.Tuple) and not known_call and all(isinstance(t, ast.Name) for t in tgt.elts):
+			e = self.expr(v)
+			if e.ty[0] != 'tuple' or len(e.ty[1]) != len(tgt.elts): raise Untranslatable(f'unpacking {e.ty} into {len(tgt.elts)} names')
+			self.nv += 1
+			tv = f't{self.nv}'
+			out = self.guards(e.raises, ind) + f'{ind}let {tv} := {e.lean}\n'
+			n = len(tgt.elts)
+			for i, (t, x) in enumerate(zip(tgt.elts, e.ty[1])):
+				proj = tv + ''.join(['.2'] * i) + ('.1' if i < n - 1 else '')
+				out += self.assign(t.id, E(proj, x), ind)
 			return out
 		# obj.field = e   on a local record
 		if isinstance(tgt, ast.Attribute) and isinstance(tgt.value, ast.Name) and tgt.value.id in self.vars and self.vars[tgt.value.id][0] == 'rec':
@@ -1166,6 +1237,17 @@ class Fn:
 		if not isinstance(tgt, ast.Name):
 			raise Untranslatable(f'assignment target at line {st.lineno}')
 		name = tgt.id
+		if isinstance(v, ast.Call) and v.args and isinstance(v.args[0], ast.ListComp):
+			tmp = f'tmp__L{st.lineno - self.node.lineno}'      # named by its line within the function (the same in both passes)
+			hint = (self.d.get('comp_types') or {}).get(name)
+			if hint is None: raise Untranslatable(f'type of the list comprehension passed to {ast.unparse(v.func)} is not declared')
+			if tmp not in self.vars:
+				self.vars[tmp] = hint; self.order.append(tmp)
+			a1 = ast.copy_location(ast.Assign(targets=[ast.Name(id=tmp, ctx=ast.Store())], value=v.args[0], lineno=st.lineno), st)
+			v2 = ast.copy_location(ast.Call(func=v.func, args=[ast.Name(id=tmp, ctx=ast.Load())] + v.args[1:], keywords=v.keywords), v)
+			a2 = ast.copy_location(ast.Assign(targets=[tgt], value=v2, lineno=st.lineno), st)
+			for x in (a1, a2): ast.fix_missing_locations(x)
+			return self.stmt(a1, ind) + self.stmt(a2, ind)
 		# x = [elt for i in xs if c]  with an element expression that is not just `i`:  x = []; for i in xs: if c: x.append(elt)
 		if (isinstance(v, ast.ListComp) and len(v.generators) == 1 and isinstance(v.generators[0].target, ast.Name)
 				and not (isinstance(v.elt, ast.Name) and v.elt.id == v.generators[0].target.id)):
@@ -1197,7 +1279,33 @@ class Fn:
 			self.list_hint = None
 		return self.assign(name, e, ind)
 
+	def is_known_call(self, v) -> bool:
+		return isinstance(v, ast.Call) and ((isinstance(v.func, ast.Name) and v.func.id in self.known) or self.self_call(v) is not None)
+
+	def self_call(self, v):
+		"""self.method(args) / super().method(args) of a class whose methods are translated: (translated function name, leading self arguments)"""
+		f = v.func
+		if not isinstance(f, ast.Attribute): return None
+		recv = f.value
+		is_self = isinstance(recv, ast.Name) and recv.id == 'self'
+		is_super = isinstance(recv, ast.Call) and isinstance(recv.func, ast.Name) and recv.func.id == 'super' and not recv.args
+		key = ('super.' if is_super else '') + f.attr
+		sc = (self.d.get('self_calls') or {}).get(key)
+		if sc is None or not (is_self or is_super): return None
+		return sc
+
 	def call_known(self, v):
+		sc = self.self_call(v)
+		if sc is not None:
+			d = self.known[sc[0]]
+			self.calls.add(d['module']); self.callees.add(d['name'])
+			if v.keywords: raise Untranslatable(f'method call {ast.unparse(v.func)} with keywords')
+			lead = [self.d['self_exprs'][tok] for tok in sc[1]]
+			rest = d['params'][len(lead):]
+			if len(v.args) != len(rest): raise Untranslatable(f'method call {ast.unparse(v.func)} with unexpected arguments')
+			args = [self.coerce(self.expr(a), t, f'argument of {ast.unparse(v.func)}') for a, (_, t) in zip(v.args, rest)]
+			call = f'({d["name"]} ' + ' '.join([en[0] for en in d['env']] + lead + [a.lean for a in args]) + ')'
+			return call, d['ret'], guard_all(args)
 		d = self.known[v.func.id]
 		self.calls.add(d['module'])
 		self.callees.add(d['name'])
@@ -1234,7 +1342,7 @@ class Fn:
 		if self.gen:
 			if st.value is not None: raise Untranslatable('return with a value in a generator')
 			return f'{ind}let _ ← (throw (Py.Ctl.ret s.yielded) : Py.M St Ret Unit)\n'
-		if st.value is not None and isinstance(st.value, ast.Call) and isinstance(st.value.func, ast.Name) and st.value.func.id in self.known:
+		if st.value is not None and self.is_known_call(st.value):
 			call, ty, raises = self.call_known(st.value)
 			e = self.coerce(E('v', ty), self.d['ret'], 'returned value')
 			return self.guards(raises, ind) + f'{ind}let v ← Py.call {call}\n{ind}let _ ← (throw (Py.Ctl.ret {e.lean}) : Py.M St Ret Unit)\n'
@@ -1581,7 +1689,7 @@ def regenerate(repo: Path, out_dir: Path, stub: set = frozenset()) -> dict:
 				raise Untranslatable('generated definition did not type-check')
 			want = [a.arg for a in node.args.args + node.args.kwonlyargs if a.arg != 'self']
 			have = [n for n, _ in d['params'] if not n.startswith('self_')]
-			if want != have or node.args.vararg or node.args.kwarg:
+			if [mangle(w) for w in want] != have or node.args.vararg or node.args.kwarg:
 				raise Untranslatable(f'parameters of {d["qual"]} are {want}, the declaration expects {have}')
 			node = rename_locals(node)
 			fn = Fn(d, node, known)
@@ -1595,6 +1703,7 @@ def regenerate(repo: Path, out_dir: Path, stub: set = frozenset()) -> dict:
 			report['untranslatable'].append(f'{d["file"]}:{d["qual"]}: {e}')
 			report.setdefault('untranslatable_by_module', {}).setdefault(d['module'], []).append(f'{d["file"]}:{d["qual"]}: {e}')
 		known[node.name if node is not None else d['name']] = d
+		known.setdefault(d['name'], d)      # also under its translated name (self-method calls refer to it)
 		texts.setdefault(d['module'], []).append(out)
 	out_dir.mkdir(parents=True, exist_ok=True)
 	for module, parts in texts.items():
